@@ -18,6 +18,8 @@ import (
 	"sort"
 	"strconv"
 	"strings"
+	"sync"
+	"unsafe"
 
 	"verifharness/hx"
 
@@ -550,6 +552,13 @@ func makeFn(w *tvWorld, name string, n uint64) func(uint64, bool) (uint64, error
 			return res(0, "nc")
 		case "fail":
 			return res(0, "fail")
+		case "boom":
+			// the function panics: for the object this is a failing function (nothing may change, the lock must be
+			// released by the deferred Unlock); the harness recovers the panic
+			w.fnResult = "boom"
+			w.trace = append(w.trace, "F^")
+			w.anyFail = true
+			panic(boomValue)
 		case "ncx":
 			if ex {
 				return res(0, "nc")
@@ -577,6 +586,29 @@ func makeFn(w *tvWorld, name string, n uint64) func(uint64, bool) (uint64, error
 		}
 		panic("unknown fn " + name)
 	}
+}
+
+const boomValue = "verif: the compute function panics"
+
+// lockFree: after a call unwound by a panic, is t.mutex unlocked?  (syncutils.RWMutex is sync.RWMutex in the default build:
+// obligation C06_skeleton_type_rwmutex.)  ok=false if the field is not a sync.RWMutex.
+func lockFree(tv any) (free, ok bool) {
+	defer func() {
+		if recover() != nil {
+			ok = false
+		}
+	}()
+	m := reflect.ValueOf(tv).Elem().FieldByName("mutex")
+	if !m.IsValid() || m.Type() != reflect.TypeOf(sync.RWMutex{}) {
+		return false, false
+	}
+	mu := (*sync.RWMutex)(unsafe.Pointer(m.UnsafeAddr()))
+	if !mu.TryLock() {
+		return false, true
+	}
+	mu.Unlock()
+
+	return true, true
 }
 
 // specFn is the harness's own evaluation of the named function (for the transparency oracle).
@@ -742,7 +774,17 @@ func (w *tvWorld) exec(r *hx.Run, f []string) string {
 			out = "bad-op"
 		}
 	})
-	if pan != "" {
+	leaked := false
+	if pan != "" && w.fnResult == "boom" && strings.Contains(pan, boomValue) {
+		// the harness's own function panicked, as asked: not a finding; but the object must have released its lock
+		out = "boom"
+		pan = ""
+		if free, known := lockFree(w.tv); known && !free {
+			leaked = true
+			r.Fail("failure-atomic", fmt.Sprintf("%s: the compute function panicked and TypedValue.mutex is still locked afterwards: every later call on the object blocks forever", op),
+				map[string]string{"oracle": "lock-leaked-by-panic", "api": "TypedValue.compute"})
+		}
+	} else if pan != "" {
 		out = "panic"
 		r.Fail("no-panic", fmt.Sprintf("%s panicked: %s", op, pan), map[string]string{"oracle": "panic", "api": "TypedValue." + f[0]})
 	} else if err != nil {
@@ -756,9 +798,12 @@ func (w *tvWorld) exec(r *hx.Run, f []string) string {
 	cvAfter, chAfter := w.cache()
 	faultTok := f[len(f)-1]
 	api := "TypedValue." + f[0]
+	if leaked {
+		defer w.open() // the rest of the case continues on a fresh object instead of hanging
+	}
 
 	// ---- property oracle, on the implementation ----
-	isErr := strings.HasPrefix(out, "err:")
+	isErr := strings.HasPrefix(out, "err:") || out == "boom"
 	// (1) every failure is reported: a failed call <=> an error of that call's kind is returned
 	if w.anyFail && !isErr {
 		last := w.trace[len(w.trace)-1]
